@@ -8,8 +8,8 @@ import (
 	"fmt"
 	"strings"
 
-	ctypes "github.com/lidofinance/dc4bc/client/types"
 	"github.com/lidofinance/dc4bc/client/services/node"
+	ctypes "github.com/lidofinance/dc4bc/client/types"
 	"github.com/lidofinance/dc4bc/fsm/types/requests"
 	"github.com/lidofinance/dc4bc/storage"
 )
@@ -196,22 +196,44 @@ func scenarioC20(c *Ctx) {
 		r.DKGID = r.DKGID + "0"
 		check("dkg-id", r)
 		for pi := range sampleFile.Participants {
-			r = clone(); r.Participants[pi].Name += "x"; check(fmt.Sprintf("participant-%d-name", pi), r)
-			r = clone(); r.Participants[pi].NewCommPubKey = flip(r.Participants[pi].NewCommPubKey); check(fmt.Sprintf("participant-%d-newkey", pi), r)
-			r = clone(); r.Participants[pi].OldCommPubKey = flip(r.Participants[pi].OldCommPubKey); check(fmt.Sprintf("participant-%d-oldkey", pi), r)
-			r = clone(); r.Participants[pi].DKGPubKey = flip(r.Participants[pi].DKGPubKey); check(fmt.Sprintf("participant-%d-dkgkey", pi), r)
+			r = clone()
+			r.Participants[pi].Name += "x"
+			check(fmt.Sprintf("participant-%d-name", pi), r)
+			r = clone()
+			r.Participants[pi].NewCommPubKey = flip(r.Participants[pi].NewCommPubKey)
+			check(fmt.Sprintf("participant-%d-newkey", pi), r)
+			r = clone()
+			r.Participants[pi].OldCommPubKey = flip(r.Participants[pi].OldCommPubKey)
+			check(fmt.Sprintf("participant-%d-oldkey", pi), r)
+			r = clone()
+			r.Participants[pi].DKGPubKey = flip(r.Participants[pi].DKGPubKey)
+			check(fmt.Sprintf("participant-%d-dkgkey", pi), r)
 		}
 		for mi := range sampleFile.Messages {
 			if c.Quick() && mi%3 != 0 {
 				continue
 			}
-			r = clone(); r.Messages[mi].Data = flip(r.Messages[mi].Data); check(fmt.Sprintf("message-%d-payload", mi), r)
-			r = clone(); r.Messages[mi].Signature = flip(r.Messages[mi].Signature); check(fmt.Sprintf("message-%d-signature", mi), r)
-			r = clone(); r.Messages[mi].SenderAddr += "x"; check(fmt.Sprintf("message-%d-sender", mi), r)
-			r = clone(); r.Messages[mi].RecipientAddr += "x"; check(fmt.Sprintf("message-%d-recipient", mi), r)
-			r = clone(); r.Messages[mi].Event += "x"; check(fmt.Sprintf("message-%d-event", mi), r)
-			r = clone(); r.Messages[mi].Offset += 7; check(fmt.Sprintf("message-%d-offset", mi), r)
-			r = clone(); r.Messages[mi].DkgRoundID += "x"; check(fmt.Sprintf("message-%d-round", mi), r)
+			r = clone()
+			r.Messages[mi].Data = flip(r.Messages[mi].Data)
+			check(fmt.Sprintf("message-%d-payload", mi), r)
+			r = clone()
+			r.Messages[mi].Signature = flip(r.Messages[mi].Signature)
+			check(fmt.Sprintf("message-%d-signature", mi), r)
+			r = clone()
+			r.Messages[mi].SenderAddr += "x"
+			check(fmt.Sprintf("message-%d-sender", mi), r)
+			r = clone()
+			r.Messages[mi].RecipientAddr += "x"
+			check(fmt.Sprintf("message-%d-recipient", mi), r)
+			r = clone()
+			r.Messages[mi].Event += "x"
+			check(fmt.Sprintf("message-%d-event", mi), r)
+			r = clone()
+			r.Messages[mi].Offset += 7
+			check(fmt.Sprintf("message-%d-offset", mi), r)
+			r = clone()
+			r.Messages[mi].DkgRoundID += "x"
+			check(fmt.Sprintf("message-%d-round", mi), r)
 		}
 		// the recorded ambiguity: moving a character between two adjacent fields
 		r = clone()
@@ -240,6 +262,15 @@ func startReinit(c *Ctx, A *Cluster, tag string, withJunk, adapt bool, forgedOpt
 	if withJunk {
 		junk := storage.Message{DkgRoundID: "some-other-round", Event: "event_sig_proposal_confirm_by_participant", Data: []byte(`{"ParticipantId":0}`), SenderAddr: A.Users[0], Offset: 3}
 		log = append(log[:3], append([]storage.Message{junk}, log[3:]...)...)
+	}
+	if withJunk && len(log) > 6 {
+		// a batch proposal for THIS round, posted by a stranger while the key generation was under way
+		// (every original node refused it: bad signature, round not in a signing state): it must not
+		// end the reinit file nor the replay
+		sp := storage.Message{DkgRoundID: log[0].DkgRoundID, Event: "event_signing_start",
+			Data:       []byte(`{"BatchID":"premature","ParticipantId":0,"CreatedAt":"2026-09-25T20:00:00Z","SigningTasks":[{"MessageID":"m","File":"f","Payload":"QQ=="}]}`),
+			SenderAddr: "nobody", Signature: make([]byte, 64), Offset: 5}
+		log = append(log[:5], append([]storage.Message{sp}, log[5:]...)...)
 	}
 	if forged && len(log) > 1 {
 		// a forged decline in participant 1's name with a garbage signature, right after the proposal:
